@@ -21,7 +21,16 @@ package main
 import (
 	"bufio"
 	"bytes"
+	"crypto/ecdsa"
+	"crypto/elliptic"
+	"crypto/rand"
+	"crypto/sha256"
+	"crypto/x509"
+	"crypto/x509/pkix"
+	"encoding/asn1"
 	"encoding/base64"
+	"encoding/json"
+	"math/big"
 	stdhtml "html"
 	htmltmpl "html/template"
 	"io"
@@ -346,6 +355,11 @@ func TestVerifC18(t *testing.T) {
 
 	state.Config.Base.AutomationUsers = []string{"role1"}
 	state.Config.Base.AutomationAdmins = []string{"vfautoadmin"}
+	// an OpenID Connect client registered by domain: any path below it is an acceptable redirect_uri
+	state.Config.OpenIDConnectIDP.Client = []OpenIDConnectClientConfig{
+		{ClientID: "vfclient", ClientSecret: "vfsecret", AllowedRedirectDomains: []string{"app.example.com"}}}
+	u2fAppID = "https://" + state.HostIdentity
+	u2fTrustedFacets = []string{u2fAppID}
 
 	// every route main() registers on the service port (table regenerated from the source)
 	mux := http.NewServeMux()
@@ -393,7 +407,7 @@ func TestVerifC18(t *testing.T) {
 		}
 		need := map[string]int{"loginfail": 3, "login2fa": 1, "root": 1, "urlget": 3, "urlpost": 4,
 			"profile": 4, "users": 1, "newtotp": 1, "bootstrap": 1, "showtoken": 1, "direct": 3,
-			"direct2fa": 1, "admin": 1, "esc": 1, "tok": 1, "b64": 1, "req": 6}
+			"direct2fa": 1, "admin": 1, "esc": 1, "tok": 1, "b64": 1, "req": 6, "u2freg": 4}
 		if n, known := need[f[0]]; !known || len(args) != n {
 			ok = false
 		}
@@ -529,6 +543,33 @@ func TestVerifC18(t *testing.T) {
 			} else {
 				outs = append(outs, env.pageLine(vfC18Scan(rr.Code, rr.Header().Get("Content-Type"), rr.Body.Bytes()), []string{args[0]}))
 			}
+		case "u2freg": // <user> <attestation subject CN> <attestation issuer CN, empty: self-issued> <token name>
+			// a software U2F token enrolled through the real /u2f/Register* handlers (the daemon
+			// skips attestation verification, so the certificate is whatever the client sends),
+			// then every page that shows the registration
+			env.setWebUI(twoFA...)
+			user := args[0]
+			if user == "" {
+				user = "vfu2fuser"
+			}
+			state.DeleteUserProfile(user)
+			ck := env.cookie(user, full)
+			regErr := env.u2fRegister(user, ck, args[1], args[2])
+			if regErr != "" {
+				outs = append(outs, "R 0 0 - - 0 0 0 0 E "+vfHex("u2freg: "+regErr))
+				break
+			}
+			if args[3] != "" { // rename through the real token manager is validated; store the name directly
+				if prof, ok, _, err := state.LoadUserProfile(user); err == nil && ok {
+					for _, d := range prof.U2fAuthData {
+						d.Name = args[3]
+					}
+					state.SaveUserProfile(user, prof)
+				}
+			}
+			outs = append(outs, env.do(env.addr, "GET", profilePath, ck, nil, nil))
+			outs = append(outs, env.do(env.addr, "GET", profilePath+url.PathEscape(user), env.cookie("vfadmin", full), nil, nil))
+			state.DeleteUserProfile(user)
 		case "req": // <method> <path> <raw query> <form body> <Accept or empty> <cookie kind>: any route, any error path
 			env.setWebUI(twoFA...)
 			target := args[1]
@@ -581,4 +622,68 @@ func TestVerifC18(t *testing.T) {
 		}
 		vio.emit("%s %d %s", f[0], len(outs), strings.Join(outs, " "))
 	}
+}
+
+// u2fRegister enrols a software token for user through /u2f/RegisterRequest/ and
+// /u2f/RegisterResponse/. The attestation certificate carries subjectCN and is issued by a
+// throw-away CA named issuerCN (self-issued when issuerCN is empty). Returns "" on success.
+func (e *vfC18Env) u2fRegister(user string, cookie map[string]string, subjectCN, issuerCN string) string {
+	upath := url.PathEscape(user)
+	st, _, body, errs := e.send(e.addr, vfC18RawAccept("GET", u2fRegustisterRequestPath+upath, "keymaster.example", "application/json", cookie, ""))
+	if errs != "" || st != 200 {
+		return "request " + itoa(st) + " " + errs
+	}
+	var wr struct {
+		AppID            string `json:"appId"`
+		RegisterRequests []struct {
+			Version   string `json:"version"`
+			Challenge string `json:"challenge"`
+		} `json:"registerRequests"`
+	}
+	if err := json.Unmarshal(body, &wr); err != nil || len(wr.RegisterRequests) == 0 {
+		return "request body"
+	}
+	tokenKey, _ := ecdsa.GenerateKey(elliptic.P256(), rand.Reader)
+	attKey, _ := ecdsa.GenerateKey(elliptic.P256(), rand.Reader)
+	leaf := &x509.Certificate{SerialNumber: big.NewInt(2), Subject: pkix.Name{CommonName: subjectCN},
+		NotBefore: time.Now().Add(-time.Hour), NotAfter: time.Now().Add(24 * time.Hour)}
+	parent, signKey := leaf, attKey
+	if issuerCN != "" {
+		caKey, _ := ecdsa.GenerateKey(elliptic.P256(), rand.Reader)
+		parent = &x509.Certificate{SerialNumber: big.NewInt(1), Subject: pkix.Name{CommonName: issuerCN},
+			NotBefore: time.Now().Add(-time.Hour), NotAfter: time.Now().Add(24 * time.Hour), IsCA: true,
+			BasicConstraintsValid: true, KeyUsage: x509.KeyUsageCertSign}
+		signKey = caKey
+	}
+	der, err := x509.CreateCertificate(rand.Reader, leaf, parent, &attKey.PublicKey, signKey)
+	if err != nil {
+		return "certificate: " + err.Error()
+	}
+	b64 := func(b []byte) string { return strings.TrimRight(base64.URLEncoding.EncodeToString(b), "=") }
+	cd, _ := json.Marshal(map[string]string{"typ": "navigator.id.finishEnrollment", "challenge": wr.RegisterRequests[0].Challenge, "origin": wr.AppID})
+	pub := elliptic.Marshal(elliptic.P256(), tokenKey.PublicKey.X, tokenKey.PublicKey.Y)
+	kh := sha256.Sum256(pub)
+	app := sha256.Sum256([]byte(wr.AppID))
+	chal := sha256.Sum256(cd)
+	msg := append([]byte{0}, app[:]...)
+	msg = append(msg, chal[:]...)
+	msg = append(msg, kh[:]...)
+	msg = append(msg, pub...)
+	h := sha256.Sum256(msg)
+	r, sg, err := ecdsa.Sign(rand.Reader, attKey, h[:])
+	if err != nil {
+		return "sign"
+	}
+	sig, _ := asn1.Marshal(struct{ R, S *big.Int }{r, sg})
+	raw := append([]byte{0x05}, pub...)
+	raw = append(raw, byte(len(kh)))
+	raw = append(raw, kh[:]...)
+	raw = append(raw, der...)
+	raw = append(raw, sig...)
+	resp, _ := json.Marshal(map[string]string{"version": "U2F_V2", "registrationData": b64(raw), "clientData": b64(cd)})
+	st, _, body, errs = e.send(e.addr, vfC18RawAccept("POST", u2fRegisterRequesponsePath+upath, "keymaster.example", "application/json", cookie, string(resp)))
+	if errs != "" || st != 200 {
+		return "response " + itoa(st) + " " + errs + " " + string(body)
+	}
+	return ""
 }
